@@ -231,6 +231,10 @@ for _p in ("C17", "C06"):
 PROPS["C18"]["tasks"] = PROPS["C18"]["tasks"] + ["SequentialRunner._setup"]
 PROPS["C12"]["tasks"] = PROPS["C12"]["tasks"] + ["SequentialRunner._set_fundamental_correlation[pair]"]
 PROPS["C09"]["tasks"] = PROPS["C09"]["tasks"] + ["Simulator._add_agent"]      # who is consulted in which phase is decided at registration
+# round 7: the configured fundamental parameters reach the generator through the expanded group settings (C12 depends on json_extends);
+# the shock events compute their trigger times from the recorded session start (C14 depends on the session generation block)
+PROPS["C12"]["tasks"] = PROPS["C12"]["tasks"] + ["json_extends"]
+PROPS["C14"]["tasks"] = PROPS["C14"]["tasks"] + ["SequentialRunner._generate_sessions[session]"]
 from .census import CALLERS as _CALLERS
 for _g, (_ps, _r, _t) in _CALLERS.items():
     for _p in _ps:
